@@ -442,6 +442,12 @@ def run_inner(script, case, outer_bound):
         except Exception:
             tail = ''
         res = dict(infra=f'inner run produced no result (timed_out={timed_out}, rc={p.returncode}, case={json.dumps(case)[:400]}): {tail}')
+    if os.path.exists(of + '.side'):
+        try:
+            with open(of + '.side') as f:
+                res['side'] = f.read()      # what the inner program wrote on the side (it may have ended on its own)
+        except Exception:
+            pass
     res['wall'] = round(wall, 3)
     res['outer_timeout'] = timed_out
     try:
